@@ -50,24 +50,19 @@ func cvc5Prep(s string) string {
 }
 
 func classify(out string) string {
+	isErr := false
 	for _, l := range strings.Split(out, "\n") {
 		l = strings.TrimSpace(l)
 		switch l {
-		case "unsat":
-			return "unsat"
-		case "sat":
-			return "sat"
-		case "unknown":
-			return "unknown"
-		case "timeout":
-			return "timeout"
+		case "unsat", "sat", "unknown", "timeout":
+			return l
 		}
-		if l != "" {
-			// first non-empty line is something else (error)
-			if strings.HasPrefix(l, "(error") || strings.Contains(l, "rror") {
-				return "error"
-			}
+		if strings.HasPrefix(l, "(error") {
+			isErr = true
 		}
+	}
+	if isErr {
+		return "error"
 	}
 	return "unknown"
 }
